@@ -6,6 +6,7 @@ from idpyoidc.message import Message
 from idpyoidc.message import oauth2
 from idpyoidc.message.oauth2 import AuthorizationRequest
 from idpyoidc.server.oauth2.authorization import Authorization
+from idpyoidc.time_util import utc_time_sans_frac
 
 
 class PushedAuthorization(Authorization):
@@ -48,8 +49,12 @@ class PushedAuthorization(Authorization):
         _request.verify(keyjar=self.upstream_get("attribute", "keyjar"))
 
         _urn = "urn:uuid:{}".format(uuid.uuid4())
-        # Store the parsed and verified request
-        self.upstream_get("context").par_db[_urn] = _request
+        # Store the parsed and verified request, together with the end of the lifetime that
+        # is announced below
+        self.upstream_get("context").par_db[_urn] = {
+            "request": _request,
+            "expires_at": utc_time_sans_frac() + self.ttl,
+        }
 
         return {
             "http_response": {"request_uri": _urn, "expires_in": self.ttl},
